@@ -11,8 +11,12 @@ import (
 	"crypto/sha256"
 	"database/sql"
 	"encoding/hex"
+	"encoding/json"
 	"errors"
 	"fmt"
+	"io"
+	"net/http"
+	"net/url"
 	"os"
 	"path/filepath"
 	"runtime"
@@ -26,7 +30,10 @@ import (
 	"testing/synctest"
 	"time"
 
+	"github.com/gorilla/mux"
 	_ "github.com/mattn/go-sqlite3"
+	whttp "github.com/transparency-dev/witness/client/http"
+	ihttp "github.com/transparency-dev/witness/internal/http"
 	"github.com/transparency-dev/witness/internal/persistence"
 	"github.com/transparency-dev/witness/internal/persistence/inmemory"
 	psql "github.com/transparency-dev/witness/internal/persistence/sql"
@@ -93,6 +100,17 @@ type OpRec struct {
 	Fired    []string // faults that hit this op ("key=kind")
 	Done     bool
 	SetsSeen int // number of successful Sets in the run when this op returned
+	// HTTP read API (C16)
+	GetID      string
+	GetIDKind  string
+	HStatus    int
+	HBody      []byte
+	HErr       error
+	HRedirects int
+	HCType     string
+	CBytes     []byte
+	CErr       error
+	NetFault   string
 }
 
 type SetRec struct {
@@ -134,6 +152,9 @@ type Engine struct {
 	aborting atomic.Bool
 	seamsOn  atomic.Bool
 	vfsKind  string
+	net      *SimNet
+	hclient  *http.Client
+	wclient  whttp.Witness
 
 	mu       sync.Mutex
 	names    map[int64]string
@@ -567,6 +588,9 @@ func (e *Engine) execOp(idx int, task string, invokeEvent int) {
 		rec.List, rec.Err = e.wit.GetLogs()
 		rec.TReturn = time.Now()
 		rec.Done = true
+	case "get", "getlist":
+		e.execGet(rec, op)
+		rec.Done = true
 	default: // update
 		src := e.W.Logs[((op.L%len(e.W.Logs))+len(e.W.Logs))%len(e.W.Logs)]
 		req := resolveUpdate(e.W, op, e.trackedFor(src.ID))
@@ -958,11 +982,7 @@ func Execute(t *testing.T, plan *Plan) (res *RunResult) {
 		if r := recover(); r != nil {
 			// synctest reports goroutines left blocked when the bubble ends
 			res.Infra = append(res.Infra, fmt.Sprintf("bubble ended abnormally: %v", r))
-			if os.Getenv("VERIF_DEBUG") != "" {
-				buf := make([]byte, 1<<20)
-				n := runtime.Stack(buf, true)
-				fmt.Fprintf(os.Stderr, "%s\n", buf[:n])
-			}
+			dumpGoroutines()
 		}
 	}()
 	synctest.Test(t, func(t *testing.T) {
@@ -998,6 +1018,13 @@ func Execute(t *testing.T, plan *Plan) (res *RunResult) {
 			return
 		}
 		e.wit = wit
+		router := mux.NewRouter()
+		ihttp.NewServer(wit).RegisterHandlers(router)
+		e.net = NewSimNet()
+		e.net.Hosts["witness.example"] = router
+		e.hclient = &http.Client{Transport: e.net, Timeout: 30 * time.Second}
+		wu, _ := url.Parse("http://witness.example/")
+		e.wclient = whttp.NewWitness(wu, e.hclient)
 		curEngine.Store(e)
 		defer curEngine.Store(nil)
 		e.seamsOn.Store(true)
@@ -1039,6 +1066,9 @@ func Execute(t *testing.T, plan *Plan) (res *RunResult) {
 		if e.db != nil {
 			res.InUse = e.db.Stats().InUse
 		}
+		for k, v := range e.net.Fired {
+			e.stats.Fired[k] += v
+		}
 		e.stats.SimNanos = int64(time.Since(e.start))
 		res.Hist, res.Sets, res.EvLog, res.Stats = e.hist, e.sets, e.evlog, e.stats
 		res.Viol, res.Infra = e.engineViol, append(res.Infra, e.infra...)
@@ -1055,3 +1085,112 @@ func Execute(t *testing.T, plan *Plan) (res *RunResult) {
 }
 
 func isNotFound(err error) bool { return err != nil && status.Code(err) == codes.NotFound }
+
+func dumpGoroutines() {
+	if os.Getenv("VERIF_DEBUG") != "" {
+		buf := make([]byte, 1<<20)
+		n := runtime.Stack(buf, true)
+		fmt.Fprintf(os.Stderr, "%s\n", buf[:n])
+	}
+}
+
+// oddID builds the log ID variants C16 asks the read API about.
+func oddID(w *World, op Op) (id, kind string, known bool) {
+	l := w.Logs[((op.L%len(w.Logs))+len(w.Logs))%len(w.Logs)]
+	switch op.M {
+	case "", "known":
+		return l.ID, "known", true
+	case "unknown":
+		return LogID(fmt.Sprintf("nobody-%d", op.MV)), "unknown", false
+	case "empty":
+		return "", "empty", false
+	case "dots":
+		return "..", "dots", false
+	case "dot":
+		return ".", "dot", false
+	case "slash":
+		return l.ID + "/x", "slash", false
+	case "encslash":
+		return l.ID[:10] + "%2F" + l.ID[10:], "encslash", false
+	case "upper":
+		return strings.ToUpper(l.ID), "upper", strings.ToUpper(l.ID) == l.ID
+	case "suffix":
+		return l.ID + "0", "suffix", false
+	case "prefix":
+		return l.ID[:len(l.ID)-1], "prefix", false
+	case "long":
+		return strings.Repeat("a", 4000), "long", false
+	case "space":
+		return l.ID + "%20", "space", false
+	case "dashes":
+		return "---", "dashes", false
+	case "star":
+		return "*", "star", false
+	}
+	return l.ID, "known", true
+}
+
+func (e *Engine) execGet(rec *OpRec, op Op) {
+	if op.K == "getlist" {
+		rec.TInvoke = time.Now()
+		resp, err := e.hclient.Get("http://witness.example/witness/v0/logs")
+		rec.HErr = err
+		if err == nil {
+			rec.HStatus = resp.StatusCode
+			rec.HCType = resp.Header.Get("Content-Type")
+			rec.HBody, _ = io.ReadAll(resp.Body)
+			resp.Body.Close()
+			if resp.StatusCode == 200 {
+				if jerr := json.Unmarshal(rec.HBody, &rec.List); jerr != nil {
+					rec.HErr = fmt.Errorf("log list is not JSON: %v", jerr)
+				}
+			}
+		}
+		rec.TReturn = time.Now()
+		return
+	}
+	id, kind, known := oddID(e.W, op)
+	rec.GetID, rec.GetIDKind = id, kind
+	l := e.W.Logs[((op.L%len(e.W.Logs))+len(e.W.Logs))%len(e.W.Logs)]
+	lid := l.ID
+	if !known {
+		lid = "\x00none"
+	}
+	rec.Req = &Request{LogIdx: l.Idx, LogID: lid, Known: known}
+	rec.StBefore = e.trackedFor(lid)
+	rec.TInvoke = time.Now()
+	if op.P != "" {
+		// a network fault on the next request (client mapping)
+		e.net.mu.Lock()
+		e.net.Faults[fmt.Sprintf("net#%d", len(e.net.Log))] = op.P
+		e.net.mu.Unlock()
+		rec.NetFault = op.P
+	}
+	if op.B == 0 {
+		// raw GET through the registered router, following the router's own redirects
+		redirects := 0
+		hc := &http.Client{Transport: e.net, Timeout: 30 * time.Second, CheckRedirect: func(req *http.Request, via []*http.Request) error {
+			redirects = len(via)
+			if len(via) > 5 {
+				return http.ErrUseLastResponse
+			}
+			return nil
+		}}
+		resp, err := hc.Get("http://witness.example/witness/v0/logs/" + id + "/checkpoint")
+		rec.HErr = err
+		if err == nil {
+			rec.HStatus = resp.StatusCode
+			rec.HCType = resp.Header.Get("Content-Type")
+			var rerr error
+			rec.HBody, rerr = io.ReadAll(resp.Body)
+			if rerr != nil {
+				rec.HErr = rerr
+			}
+			resp.Body.Close()
+		}
+		rec.HRedirects = redirects
+	} else {
+		rec.CBytes, rec.CErr = e.wclient.GetLatestCheckpoint(context.Background(), id)
+	}
+	rec.TReturn = time.Now()
+}
